@@ -2,7 +2,7 @@
 Driver for E6 / forecasting (C19).   msg := [sender, recipient|null, type]
 
   {"op":"enum","grammar":G,"start":"<start>","cap":20,"depth":d,"limit":N}
-      → {"certs":{"rank_ok":b,"productive":b,"msg_only":b,"fuel":F},
+      → {"certs":{"rank_ok":b,"productive":b,"msg_only":b,"walk_cert":b,"fuel":F},
          "cases":[{"h":[msg…],"nexts":[msg…],"complete":b,"prefix":b,"nexts_cap":[msg…],"code":[msg…],
                    "code_nocap":[msg…],"code_complete":b,"positions":k,"positions_typeonly":k'}…], "truncated":b}
         every prefix of every interaction up to `depth` messages (breadth first along `nexts`)
@@ -63,6 +63,7 @@ structure Certs where
   rankOk : Bool
   productive : Bool
   msgOnly : Bool
+  walk : Bool
 
 /-- the message-level part of the grammar: rules reachable from the start through non-message
     nonterminals (message *content* rules are not part of the protocol level) -/
@@ -74,11 +75,12 @@ def certsOf (G : Grammar) : Certs :=
   let rank := computeRank G
   let F := G.rules.length + 2
   { rank := rank, fuel := F, rankOk := Fc.rankOk G rank F, productive := productiveB G F,
-    msgOnly := G.rules.all (fun p => msgOnly p.2) }
+    msgOnly := G.rules.all (fun p => msgOnly p.2),
+    walk := walkCert G }   -- hypothesis of C19_code_forecast_initial (the start node is a nonterminal: walkOk holds)
 
 def jCerts (c : Certs) : Json :=
   Json.mkObj [("rank_ok", Json.bool c.rankOk), ("productive", Json.bool c.productive),
-    ("msg_only", Json.bool c.msgOnly), ("fuel", Json.num (JsonNumber.fromNat c.fuel))]
+    ("msg_only", Json.bool c.msgOnly), ("walk_cert", Json.bool c.walk), ("fuel", Json.num (JsonNumber.fromNat c.fuel))]
 
 /-- forget the parties (what `StateGrammarConverter` does: a message becomes the terminal `<type>`) -/
 partial def eraseParties : Node → Node
